@@ -124,6 +124,14 @@ pub fn accepted_is_sound(ctx: &mut Ctx, xot: &Xot, doc: Node, ep: PEp, input: &I
     match r {
         Ok(Ok(d2)) => match snap_guarded(&x2, d2) {
             Ok(after) => {
+                // the serialiser never writes xmlns:xml="http://www.w3.org/XML/1998/namespace" (the binding is implicit):
+                // such a declaration is not expected back
+                let strip = |t: &ANode| {
+                    let mut t = t.clone();
+                    t.walk_mut(&mut |n| n.decls.retain(|(p, u)| !(p == "xml" && u == XML_NS)));
+                    t.norm_sets()
+                };
+                let (before, after) = (strip(&before), strip(&after));
                 if after.norm_sets() != before.norm_sets() {
                     let d = first_diff(&before.norm_sets(), &after.norm_sets()).unwrap_or_default();
                     let cause = if before_has_xmlns_xml(&before) { "xmlns-xml-declaration" } else { diff_class(&d) };
@@ -169,7 +177,22 @@ const XMLISH: &[&str] = &[
     "xml:id=\"i\"", "xml:space=\"preserve\"", "<a xmlns:p=\"u\">", "<p:a>", "</p:a>", "--", "]", "\0", "\u{1}", "\u{ffff}",
 ];
 
+/// accepted documents with declarations that serialisers and scope stacks treat specially
+const TRICKY_DOCS: &[&str] = &[
+    "<doc xmlns=\"u\"><a xmlns:xml=\"http://www.w3.org/XML/1998/namespace\">t</a></doc>",
+    "<p:doc xmlns:p=\"u\"><a xmlns:xml=\"http://www.w3.org/XML/1998/namespace\"/><p:b/></p:doc>",
+    "<p:doc xmlns:p=\"u\"><a xmlns:xml=\"http://www.w3.org/XML/1998/namespace\"><c xmlns:xml=\"http://www.w3.org/XML/1998/namespace\"/></a><p:b xml:lang=\"en\"/></p:doc>",
+    "<a xmlns:x=\"http://www.w3.org/XML/1998/namespace\" x:lang=\"en\"><b x:space=\"preserve\"/></a>",
+    "<a xmlns=\"http://www.w3.org/XML/1998/namespace\"><b xmlns=\"\"/></a>",
+    "<a xmlns:p=\"u\" xmlns:q=\"u\"><p:b q:k=\"v\"><q:c xmlns:p=\"w\" p:k=\"v\"/></p:b></a>",
+    "<a xmlns=\"u\"><b xmlns=\"\"><c xmlns=\"u\"/></b></a>",
+    "<a xml:id=\" i \" xml:space=\"default\"><b xml:id=\"j\" xml:lang=\"\"/></a>",
+];
+
 fn arbitrary_text(rng: &mut Rng) -> String {
+    if rng.chance(1, 40) {
+        return rng.pick(TRICKY_DOCS).to_string();
+    }
     let n = rng.range(0, 24);
     let mut s = String::new();
     for _ in 0..n {
@@ -381,7 +404,7 @@ pub fn break_it(doc: &ANode, r: &Rendered, k: usize, rng: &mut Rng, fragment: bo
                 return None;
             }
             let (at, q) = c[rng.below(c.len())].clone();
-            let uri = q.ns.replace('&', "&amp;").replace('<', "&lt;").replace('"', "&quot;");
+            let uri = q.ns.replace('&', "&amp;").replace('<', "&lt;").replace('"', "&quot;").replace('\t', "&#9;").replace('\n', "&#10;").replace('\r', "&#13;");
             // the alias prefix is declared either on the element itself or on the outermost element
             let root_start = starts[0];
             if at > root_start.end && rng.bool() && t[root_start.end..at].contains('>') {
